@@ -42,6 +42,9 @@ func TestMain(m *testing.M) {
 	glue.LoadRegistry()
 	intermediate.MaxRetries = 1 << 30 // uncorrelated flows are never dropped here (C07 judges that)
 	if rp := ev.LoadReplay(); rp != nil {
+		if rp.Phase == "many_flows" {
+			ev.RunReplay(rp, runManyFlows)
+		}
 		ev.RunReplay(rp, func(c Case) *ev.Failure { return runCase(c, nil) })
 	}
 	rec = ev.New("C05", "histories of up to 60 operations over a pool of 4 five-tuples (2 IPv4, 2 IPv6; kinds intra-node, to-external, inter-node with two reporting nodes, inter-node denied at egress / rejected at ingress): records with per-node strictly increasing end times (distinct within a flow), non-decreasing totals (< 2^60), arbitrary deltas (< 2^40), interleaved with resets (ForAllRecordsDo + ResetStatAndThroughputElementsInRecord) and exports (virtual-time shift + expiry scan whose callback snapshots and resets); after every operation GetNumFlows and GetRecords of every flow are compared with the reference model of DESIGN.md A.2; non-trivial = a flow received >= 3 records with a reset between two of them, or records from both nodes; distinct by hash of the case",
